@@ -13,7 +13,7 @@ for p in selftest/breaks/*${pat}*.patch; do
     echo "SELFTEST $name: PATCH DOES NOT APPLY"; fail=1; rm -rf "$d"; continue
   fi
   tier=quick; [[ "$name" == *_THOROUGH* ]] && tier=thorough
-  out=$(VERIF_REPO="$d" VERIF_SELFTEST=1 VERIF_EVIDENCE_DIR="$d/.evidence" /venv/bin/python check.py "$pid" --tier $tier 2>&1); rc=$?
+  out=$(VERIF_REPO="$d" VERIF_SELFTEST=1 VERIF_EVIDENCE_DIR="$d/.evidence" VERIF_REPLAY_DIR="$d/.replays" /venv/bin/python check.py "$pid" --tier $tier 2>&1); rc=$?
   rm -rf "$d"
   if [ $rc -eq 1 ] && echo "$out" | grep -q "^VIOLATION property=$pid"; then echo "SELFTEST $name: caught (rc=1)"; else echo "SELFTEST $name: MISSED (rc=$rc)"; echo "$out" | tail -3; fail=1; fi
 done
